@@ -50,10 +50,25 @@ func c20Case(rt *rapid.T, rec *vt.Rec) {
 		}
 		return nil
 	}
+	// the pool may take a while to answer a keep-alive (a fraction of the interval): the period must not stretch
+	latencyDiv := rapid.SampledFrom([]int{0, 0, 0, 4, 2}).Draw(rt, "poolLatencyDivisor")
+	inFlight := 0
 	sp.onUpdate = func(n int, req pool.UpdateRequest) (*pool.UpdateResponse, error) {
 		mu.Lock()
-		defer mu.Unlock()
-		if n == failUpdateAt {
+		failNow := n == failUpdateAt
+		lat := time.Duration(0)
+		if latencyDiv > 0 {
+			lat = effective/time.Duration(latencyDiv) - time.Millisecond
+		}
+		inFlight++
+		mu.Unlock()
+		if lat > 0 {
+			time.Sleep(lat)
+		}
+		mu.Lock()
+		inFlight--
+		mu.Unlock()
+		if failNow {
 			return nil, errors.New("scripted keep-alive failure")
 		}
 		return &pool.UpdateResponse{}, nil
@@ -68,7 +83,29 @@ func c20Case(rt *rapid.T, rec *vt.Rec) {
 	logf := func(f string, x ...interface{}) {
 		hist = append(hist, fmt.Sprintf("[t+%s] ", time.Since(bubbleEpoch()))+fmt.Sprintf(f, x...))
 	}
+	var early chan error // a Wait that was entered before the run it observes was started
 	cleanup := func() {
+		if early != nil {
+			if !running {
+				if err := a.Start(sp); err != nil {
+					fmt.Printf("C20: cleanup start failed: %v\n", err)
+				} else {
+					running = true
+				}
+			}
+			if running {
+				a.Stop()
+				running = false
+				synctest.Wait()
+				select {
+				case <-early:
+				default:
+					// leave it to the leftover check below to report
+				}
+			}
+			early = nil
+			sp.take() // (the calls of this clean-up run are not part of the history)
+		}
 		if running {
 			a.Stop()
 			running = false
@@ -150,8 +187,24 @@ func c20Case(rt *rapid.T, rec *vt.Rec) {
 	}
 	n := rapid.IntRange(3, 14).Draw(rt, "steps")
 	for k := 0; k < n; k++ {
-		op := rapid.SampledFrom([]string{"start", "start", "doubleStart", "stop", "advance", "advance", "advance", "force", "startFailConnect", "startFailUpdate", "failNextKeepalive", "reconfigure"}).Draw(rt, "op")
+		op := rapid.SampledFrom([]string{"start", "start", "doubleStart", "stop", "advance", "advance", "advance", "force", "startFailConnect", "startFailUpdate", "failNextKeepalive", "reconfigure", "earlyWait"}).Draw(rt, "op")
 		switch op {
+		case "earlyWait":
+			// somebody waits for the agent before it is (re)started: that Wait returns when the next run ends
+			if running || pendingWait || early != nil {
+				continue
+			}
+			early = make(chan error, 1)
+			ch := early
+			go func() { ch <- a.Wait() }()
+			synctest.Wait()
+			select {
+			case err := <-early:
+				fail("Wait returned %v although no run has ended since the last Wait", err)
+			default:
+			}
+			logf("a Wait is entered while the agent is not running")
+			classes["early-wait"] = true
 		case "reconfigure":
 			// the owner changes the configured interval while the agent is not running (also before its first start): the next run uses the new value
 			if running || pendingWait {
@@ -269,7 +322,11 @@ func c20Case(rt *rapid.T, rec *vt.Rec) {
 				continue
 			}
 			done := make(chan error, 1)
-			go func() { done <- a.Wait() }()
+			if early != nil {
+				done, early = early, nil // the Wait entered before this run was started observes its end
+			} else {
+				go func() { done <- a.Wait() }()
+			}
 			a.Stop()
 			synctest.Wait()
 			select {
@@ -295,6 +352,18 @@ func c20Case(rt *rapid.T, rec *vt.Rec) {
 			}
 			time.Sleep(d)
 			synctest.Wait()
+			// let a keep-alive that the pool is still answering finish before looking at the result
+			for i := 0; i < 100000; i++ {
+				mu.Lock()
+				busy := inFlight > 0
+				mu.Unlock()
+				if !busy {
+					break
+				}
+				time.Sleep(time.Millisecond)
+				synctest.Wait()
+				d += time.Millisecond
+			}
 			logf("advance %s", d)
 			account("advance", 0, 0)
 			if running {
@@ -325,7 +394,7 @@ func c20Case(rt *rapid.T, rec *vt.Rec) {
 				}
 			}
 		case "failNextKeepalive":
-			if !running {
+			if !running || early != nil {
 				continue
 			}
 			mu.Lock()
@@ -379,7 +448,7 @@ func relTimes(ts []time.Time) []string {
 func TestC20AgentLifecycle(t *testing.T) {
 	defer vt.Watch("TestC20AgentLifecycle", 120*time.Second)()
 	rec := vt.For("C20")
-	rec.Rule("real agent.Agent with a recording node and a scripted pool in virtual time; rules: start, two concurrent starts, start with failing connect, start with failing first keep-alive, stop (while running) with a concurrent Wait, advance (random and exact multiples of the interval), forced update, make the next loop keep-alive fail, change the configured interval while not running; interval in [1s,119s] or unset (60s); oracle (model): first start => one Connect + one immediate keep-alive; start while running => ErrAlreadyStarted and no pool call; of two concurrent starts exactly one succeeds; loop keep-alives arrive at exactly loopStart+k*interval and floor(T/interval) of them in any window (a second loop would double them); stop => Wait returns nil at the next quiescent point and nothing is sent afterwards; a failed start leaves nothing running; a failed keep-alive ends the loop and Wait returns that error; restart works; at the end no goroutine is alive; non-trivial = history with a double start, a failed start or a restart; distinct by interval + op sequence")
+	rec.Rule("real agent.Agent with a recording node and a scripted pool in virtual time; rules: start, two concurrent starts, start with failing connect, start with failing first keep-alive, stop (while running) with a concurrent Wait, advance (random and exact multiples of the interval), forced update, make the next loop keep-alive fail, change the configured interval while not running, enter Wait before the run it observes is started, keep-alives that take the pool up to half an interval to answer; interval in [1s,119s] or unset (60s); oracle (model): first start => one Connect + one immediate keep-alive; start while running => ErrAlreadyStarted and no pool call; of two concurrent starts exactly one succeeds; loop keep-alives arrive at exactly loopStart+k*interval and floor(T/interval) of them in any window (a second loop would double them); stop => Wait returns nil at the next quiescent point and nothing is sent afterwards; a failed start leaves nothing running; a failed keep-alive ends the loop and Wait returns that error; restart works; at the end no goroutine is alive; non-trivial = history with a double start, a failed start or a restart; distinct by interval + op sequence")
 	rapid.Check(t, func(rt *rapid.T) {
 		rapid.SyncTest(rt, func(rt *rapid.T) { c20Case(rt, rec) })
 	})
